@@ -6,7 +6,7 @@ for d in sorted(glob.glob("/verif/seeded/*")):
     name = os.path.basename(d)
     meta = json.load(open(d + "/meta.json"))
     det = json.load(open(d + "/detect.json")) if os.path.exists(d + "/detect.json") else None
-    what = meta.get("summary", "")
+    what = meta.get("summary", "") or meta.get("change", "")
     if not what and os.path.exists(d + "/notes.md"):
         txt = open(d + "/notes.md").read()
         lines = [l.strip() for l in txt.splitlines() if l.strip() and not l.startswith("#")]
